@@ -14,13 +14,17 @@ import (
 
 // specCtx is the evaluation context of a contract expression.
 type specCtx struct {
-	f      *fnState
-	env    *env // state the expression talks about
-	old    *env // state old(...) talks about
-	binds  map[string]SV
-	pkg    *types.Package
-	callee bool // evaluating a callee's contract at a call site: no access to caller locals
-	bound  map[string]SV
+	f        *fnState
+	env      *env // state the expression talks about
+	old      *env // state old(...) talks about
+	binds    map[string]SV
+	pkg      *types.Package
+	callee   bool      // evaluating a callee's contract at a call site: no access to caller locals
+	heapsOld bool      // heap bundles of spec functions are taken from the old state (oh(...))
+	inOld    bool      // inside old(...): parameters denote their entry values
+	invLoop  *loopInfo // the loop whose invariant is being evaluated (it() counts completed iterations)
+	locals   bool      // identifiers denote the current value of locals first (invariants, site assertions)
+	bound    map[string]SV
 }
 
 func (c *specCtx) pkgPath() string {
@@ -341,6 +345,17 @@ func (f *fnState) specIdent(name string, c *specCtx) SV {
 	if v, ok := c.bound[name]; ok {
 		return v
 	}
+	if c.locals && !c.callee && !c.inOld {
+		if a := f.findLocal(name); a != nil {
+			et := a.Type().(*types.Pointer).Elem()
+			if f.direct[a] {
+				return f.loadIn(c.env, &LV{Cell: a, RootT: et})
+			}
+			if v, ok := f.vals[a]; ok && v.LV != nil {
+				return f.loadIn(c.env, v.LV)
+			}
+		}
+	}
 	if v, ok := c.binds[name]; ok {
 		return v
 	}
@@ -376,6 +391,9 @@ func (f *fnState) specIdent(name string, c *specCtx) SV {
 }
 
 func (f *fnState) specSel(x *spec.Sel, c *specCtx) SV {
+	if srt, ok := f.e.theoryFunc(x.String()); ok {
+		return SV{Sort: srt, T: x.String()}
+	}
 	// package-qualified global (io.EOF)
 	if id, ok := x.X.(*spec.Ident); ok {
 		if _, bound := c.bound[id.Name]; !bound {
@@ -466,6 +484,8 @@ func (f *fnState) specBinary(x *spec.Binary, c *specCtx) SV {
 			b.T = f.nilOf(a)
 			b.Sort = a.Sort
 			t = f.equal(a, b)
+		case a.Sort == sSlice && b.Sort == sSlice:
+			t = eq(a.T, b.T) // spec-level equality of slice headers
 		default:
 			t = f.equal(a, b)
 		}
@@ -524,6 +544,12 @@ func (f *fnState) specCall(x *spec.Call, c *specCtx) SV {
 	case "old":
 		n := *c
 		n.env = c.old
+		n.inOld = true
+		return f.specVal(x.Args[0], &n)
+	case "oh":
+		// oh(e): e with the heap arguments of spec functions taken from the entry state
+		n := *c
+		n.heapsOld = true
 		return f.specVal(x.Args[0], &n)
 	case "len", "cap":
 		v := arg(0)
@@ -665,6 +691,17 @@ func (f *fnState) specCall(x *spec.Call, c *specCtx) SV {
 		// iface(p): the interface value holding pointer p
 		v := arg(0)
 		return SV{Sort: sIface, T: fmt.Sprintf("(mk-if %d %s)", f.e.typeTag(v.Typ), f.locTerm(v))}
+	case "allocated":
+		// allocated(k): location k designates memory that existed at function entry
+		v := arg(0)
+		var r string
+		switch v.Sort {
+		case sSlice:
+			r = fmt.Sprintf("(l-ref (s-loc %s))", v.T)
+		default:
+			r = fmt.Sprintf("(l-ref %s)", f.locTerm(v))
+		}
+		return boolSV(fmt.Sprintf("(< %s %s)", r, f.get(c.old, "G$nextref", sInt).T))
 	case "isfresh":
 		v := arg(0)
 		var r string
@@ -693,6 +730,8 @@ func (f *fnState) specCall(x *spec.Call, c *specCtx) SV {
 		return boolSV(fmt.Sprintf("(and (<= %s %s) (<= %s %s))", lo, v.T, v.T, hi))
 	case "it":
 		return f.iterCount(x, c)
+	case "ranged":
+		return f.rangedValue(x, c)
 	}
 	if sf, ok := f.e.SpecFuncs[x.Fn]; ok && sf.Body != nil {
 		// macro: evaluate the body with parameters bound to the arguments (state-dependent)
@@ -718,11 +757,26 @@ func (f *fnState) specCall(x *spec.Call, c *specCtx) SV {
 	}
 	if sf, ok := f.e.SpecFuncs[x.Fn]; ok {
 		var ts []string
+		for _, p := range sf.Params {
+			if strings.HasPrefix(p.Sort, "heap:") {
+				he := c.env
+				if c.heapsOld {
+					he = c.old
+				}
+				for _, ks := range f.e.bundle(strings.TrimPrefix(p.Sort, "heap:"), c) {
+					ts = append(ts, f.get(he, ks[0], ks[1]).T)
+				}
+			}
+		}
 		for i := range x.Args {
 			v := arg(i)
 			ts = append(ts, f.flatten(v)...)
 		}
-		rs, rt := c.specSort(sf.Ret)
+		rcx := *c
+		if p := f.e.typesPkg(sf.PkgPath); p != nil {
+			rcx.pkg = p
+		}
+		rs, rt := rcx.specSort(sf.Ret)
 		t := "(" + sym(sf.Name) + " " + strings.Join(ts, " ") + ")"
 		if len(ts) == 0 {
 			t = sym(sf.Name)
@@ -834,6 +888,108 @@ func (f *fnState) flatten(v SV) []string {
 // iterCount: it() is the number of completed iterations of the loop whose
 // invariant is being evaluated; it(n) that of loop n.
 func (f *fnState) iterCount(x *spec.Call, c *specCtx) SV {
+	l := f.loopArg(x, c)
+	own := c.invLoop == l
+	for _, ins := range l.header.Instrs {
+		switch i := ins.(type) {
+		case *ssa.UnOp:
+			if a, ok := i.X.(*ssa.Alloc); ok && a.Comment == "rangeindex" {
+				v, ok := c.env.cells[localKey(a)]
+				if !ok {
+					return intSV("0")
+				}
+				if own {
+					return intSV(fmt.Sprintf("(+ %s 1)", v.T))
+				}
+				return intSV(v.T) // inside the body the header has already advanced the index
+			}
+		case *ssa.Next:
+			if rg, ok := i.Iter.(*ssa.Range); ok {
+				v, ok := c.env.cells["R:"+rg.Name()]
+				if !ok {
+					return intSV("0")
+				}
+				if own {
+					return intSV(v.T)
+				}
+				return intSV(fmt.Sprintf("(- %s 1)", v.T))
+			}
+		}
+	}
+	f.fail("%s: it(): loop %d is not a range loop", f.fn, l.ordinal)
+	return SV{}
+}
+
+// bundle resolves a heap bundle to (cell key, sort) pairs.
+func (e *Engine) bundle(name string, c *specCtx) [][2]string {
+	if ks, ok := e.bundleKeys[name]; ok {
+		return ks
+	}
+	hb := e.Bundles[name]
+	if hb == nil {
+		c.f.fail("unknown heap bundle %q", name)
+	}
+	cc := *c
+	if p := e.typesPkg(hb.PkgPath); p != nil {
+		cc.pkg = p
+	}
+	var out [][2]string
+	for _, te := range hb.Types {
+		switch te {
+		case "M$dom":
+			out = append(out, [2]string{"M$dom", "(Array Int (Array Int Bool))"})
+			continue
+		case "M$len":
+			out = append(out, [2]string{"M$len", "(Array Int Int)"})
+			continue
+		}
+		ex, err := spec.ParseExpr(te)
+		if err != nil {
+			c.f.fail("heap bundle %s: %v", name, err)
+		}
+		var keys []string
+		if t := cc.resolveType(te); t != nil && sortOf(t) != "" {
+			keys = []string{elemMapKey(t)}
+			if c.f.cellSort[keys[0]] == "" {
+				c.f.cellSort[keys[0]] = "(Array Loc " + sortOf(t) + ")"
+			}
+		} else {
+			keys = c.f.mapKeysOfTypeExpr(ex, &cc)
+		}
+		for _, k := range keys {
+			srt := c.f.cellSort[k]
+			out = append(out, [2]string{k, srt})
+		}
+	}
+	e.bundleKeys[name] = out
+	return out
+}
+
+// rangedValue: ranged() / ranged(n) is the container loop n ranges over.
+func (f *fnState) rangedValue(x *spec.Call, c *specCtx) SV {
+	l := f.loopArg(x, c)
+	h := l.header
+	if iff, ok := h.Instrs[len(h.Instrs)-1].(*ssa.If); ok {
+		if b, ok := iff.Cond.(*ssa.BinOp); ok {
+			if call, ok := b.Y.(*ssa.Call); ok {
+				if bi, ok := call.Call.Value.(*ssa.Builtin); ok && bi.Name() == "len" {
+					return f.val(call.Call.Args[0])
+				}
+			}
+		}
+	}
+	for _, ins := range h.Instrs {
+		if nx, ok := ins.(*ssa.Next); ok {
+			if rg, ok := nx.Iter.(*ssa.Range); ok {
+				return f.val(rg.X)
+			}
+		}
+	}
+	f.fail("%s: ranged(): loop %d is not a range loop", f.fn, l.ordinal)
+	return SV{}
+}
+
+func (f *fnState) loopArg(x *spec.Call, c *specCtx) *loopInfo {
 	var l *loopInfo
 	if len(x.Args) == 1 {
 		n, _ := constInt(f.specVal(x.Args[0], c).T)
@@ -843,7 +999,6 @@ func (f *fnState) iterCount(x *spec.Call, c *specCtx) SV {
 			}
 		}
 	} else {
-		// innermost loop containing the current block
 		for _, li := range f.loopList {
 			if li.blocks[f.blk] || li.header == f.blk {
 				if l == nil || len(li.blocks) < len(l.blocks) {
@@ -853,28 +1008,7 @@ func (f *fnState) iterCount(x *spec.Call, c *specCtx) SV {
 		}
 	}
 	if l == nil {
-		f.fail("%s: it(): no such loop", f.fn)
+		f.fail("%s: %s: no such loop", f.fn, x)
 	}
-	for _, ins := range l.header.Instrs {
-		switch i := ins.(type) {
-		case *ssa.UnOp:
-			if a, ok := i.X.(*ssa.Alloc); ok && a.Comment == "rangeindex" {
-				v, ok := c.env.cells[localKey(a)]
-				if !ok {
-					return intSV("0")
-				}
-				return intSV(fmt.Sprintf("(+ %s 1)", v.T))
-			}
-		case *ssa.Next:
-			if rg, ok := i.Iter.(*ssa.Range); ok {
-				v, ok := c.env.cells["R:"+rg.Name()]
-				if !ok {
-					return intSV("0")
-				}
-				return intSV(v.T)
-			}
-		}
-	}
-	f.fail("%s: it(): loop %d is not a range loop", f.fn, l.ordinal)
-	return SV{}
+	return l
 }
